@@ -6,6 +6,7 @@ import OrsoVerif.Lemmas.MsgPackRoundtrip
 import OrsoVerif.Lemmas.RowStream
 import OrsoVerif.Lemmas.MsgPackSound
 import OrsoVerif.Lemmas.RowFns
+import OrsoVerif.Generated.RowMarkers
 /-!
 # C01 — Row byte format is lossless and self-delimiting
 
@@ -1108,5 +1109,55 @@ example :
     (Gen.RowFns.row_new none (.dict true [])).toOption = none ∧
     (Gen.RowFns.row_new none (.tuple [.int 1])).toOption = some [.int 1] ∧
     RowGlue.tupleNew (.dict true [("a", .int 1)]) = [.str "a"] := by decide
+
+/-! ## Sixth pass (wave 8): one reserved form, no second tag
+
+"… the reserved two-element form ['__datetime__', x] excluded": that pair is the *only* value of the domain the codec may
+rewrite.  `Gen.RowMarkers.*` (harness/extractors/c01_markers.py, regenerated from the working tree on every run) lists the tag
+texts the source compares a value with — inside `from_bytes_cython` and anywhere in orso/row.py (the glue `Row.from_bytes`,
+helpers it calls) — and the tag texts that head a tuple / list literal of orso/row.py (what the `default=` hook of `packb` can
+write in front of a payload). -/
+
+/-- **The only rewritten shape is the reserved pair.**  Every tag text the decoder side tests for (compiled.pyx and orso/row.py)
+is the reserved marker; every tag text the encoder side writes in front of a payload is that marker; and whatever buffer
+`Row.from_bytes` (as written) turns into a row, the items of that row are the unpacked values `vs` one by one, each either
+*itself* (and not of the reserved form) or the date-time of the reserved pair `[marker, x]`.  A second marker — a
+`'__decimal__'` test in the glue, a `('__decimal__', text)` written by `serialize` — breaks the first or the second
+conjunct; a rewrite the statement-level translation of the glue does read breaks the third. -/
+theorem only_rewritten_shape_is_reserved_pair :
+    (∀ m ∈ Gen.RowMarkers.testedPyx ++ Gen.RowMarkers.testedRow, m = Gen.Row.reservedMarker) ∧
+    (∀ m ∈ Gen.RowMarkers.writtenRow, m = Gen.Row.reservedMarkerEnc) ∧
+    (∀ (data : Bytes) (items : List Item), Gen.RowFns.from_bytes data = .row items →
+      ∃ vs : List PyVal, vs.mapM post = some items ∧
+        ∀ v it, post v = some it →
+          (isReserved v = false ∧ it = .val v) ∨ (∃ x, v = .list [.str Gen.Row.reservedMarker, x] ∧ it = .datetime x)) := by
+  refine ⟨by decide, by decide, fun data items h => ?_⟩
+  rw [generated_glue_eq_model] at h
+  unfold RowGlue.fromBytes RowGlue.callDecoder RowGlue.rowNew at h
+  cases hd : decodeRow data with
+  | error e => rw [hd] at h; cases h
+  | ok t =>
+    rw [hd] at h
+    injection h with h
+    subst h
+    unfold decodeRow decodeWith at hd
+    split at hd
+    · cases hd
+    · rename_i p _
+      unfold unpackRow at hd
+      split at hd
+      · rename_i hv
+        split at hv
+        · rename_i vs _
+          injection hd with hd; subst hd
+          exact ⟨vs, hv, post_shapes⟩
+        · cases hv
+      · cases hd
+
+/-- Non-vacuity: the lists are not empty on both sides, a look-alike is kept, the reserved pair is rewritten. -/
+example : Gen.RowMarkers.testedPyx ≠ [] ∧ Gen.RowMarkers.writtenRow ≠ [] ∧
+    post (.list [.str "__decimal__", .str "1.50"]) = some (.val (.list [.str "__decimal__", .str "1.50"])) ∧
+    post (.list [.str "__datetime__x", .int 1]) = some (.val (.list [.str "__datetime__x", .int 1])) ∧
+    post (.list [.str "__datetime__", .int 1]) = some (.datetime (.int 1)) := by decide
 
 end C01
